@@ -47,8 +47,8 @@ def race_reports(stderr):
 def run(ctx):
     quick = ctx.tier == "quick"
     ctx.build_go()
-    ctx.extract(["globals"])
     try:
+        ctx.extract(["globals"])
         ctx.prove("Emerge.Props.C17", extra_targets=())
         if not quick:
             ctx.leanchecker("Emerge.Props.C17")
